@@ -18,7 +18,10 @@ GUARD = "/verif/coq/Conc/GuardMap.v"
 def guard_map():
     """parse Conc/GuardMap.v (the Coq file stays the single source of the guard map)"""
     src = open(GUARD).read()
-    consts = dict(re.findall(r'Definition (\w+) := "([^"]+)"\.', src))
+    src = src[src.index("Definition guard_list"):]
+    src = src[:src.index("].") + 2]
+    consts_src = open(GUARD).read()
+    consts = dict(re.findall(r'Definition (\w+) := "([^"]+)"\.', consts_src))
     g = {}
     for f, rhs in re.findall(r'^\s*\("([^"]+)",\s*(.+?)\)\s*;?\s*$', src, re.M):
         rhs = rhs.strip()
@@ -32,6 +35,13 @@ def guard_map():
         else:
             raise SystemExit("cannot parse guard for %s: %s" % (f, rhs))
     return g
+
+
+def justified_aliases():
+    src = open(GUARD).read()
+    src = src[src.index("Definition justified_global_aliases"):]
+    src = src[:src.index("].") + 2]
+    return set(re.findall(r'\("([^"]+)",\s*"([^"]+)"\)', src))
 
 
 def breaches(summary, g):
@@ -54,6 +64,10 @@ def breaches(summary, g):
     for f in summary["declared_fields"]:
         if f not in g:
             out.add(("<declared>", f, "unclassified"))
+    just = justified_aliases()
+    for a in summary.get("global_alias_sites", []):
+        if (a["var"], a["fn"]) not in just:
+            out.add((a["fn"], a["var"], "global-alias"))
     return out
 
 
